@@ -42,6 +42,7 @@ type event struct {
 type hcase struct {
 	frag, rate  int
 	disk        bool
+	inband      bool // SPS/PPS are not in the SDP (the packetizer is built without them): they arrive as NAL units in front of the first IDR
 	path, token string
 	sps, pps    []byte
 	ascraw      []byte
@@ -51,8 +52,8 @@ type hcase struct {
 
 func (k *hcase) line() string {
 	var b strings.Builder
-	fmt.Fprintf(&b, "c10 run frag=%d rate=%d disk=%s wire=%s path=%s token=%s sps=%s pps=%s ascraw=%s", k.frag, k.rate, B01(k.disk),
-		B01(strings.HasPrefix(k.tag, "wire")), Hx([]byte(k.path)), Hx([]byte(k.token)), Hx(k.sps), Hx(k.pps), Hx(k.ascraw))
+	fmt.Fprintf(&b, "c10 run frag=%d rate=%d disk=%s wire=%s inband=%s path=%s token=%s sps=%s pps=%s ascraw=%s", k.frag, k.rate, B01(k.disk),
+		B01(strings.HasPrefix(k.tag, "wire")), B01(k.inband), Hx([]byte(k.path)), Hx([]byte(k.token)), Hx(k.sps), Hx(k.pps), Hx(k.ascraw))
 	for _, e := range k.evs {
 		switch e.kind {
 		case 'v':
@@ -86,6 +87,8 @@ func parseCase(l string) *hcase {
 				k.rate, _ = strconv.Atoi(kv[1])
 			case "disk":
 				k.disk = kv[1] == "1"
+			case "inband":
+				k.inband = kv[1] == "1"
 			case "wire":
 				if kv[1] == "1" {
 					k.tag = "wire-corpus"
@@ -196,6 +199,9 @@ func runImpl(k *hcase, in string) (res result) {
 		return
 	}
 	vm := &codec.VideoMeta{Codec: "H264", Sps: k.sps, Pps: k.pps}
+	if k.inband {
+		vm.Sps, vm.Pps = nil, nil
+	}
 	am := &codec.AudioMeta{Codec: "AAC", Sps: k.ascraw}
 	vp := mpegts.NewH264Packetizer(vm, sg)
 	ap := mpegts.NewAacPacketizer(am, sg)
@@ -316,6 +322,9 @@ func runImpl(k *hcase, in string) (res result) {
 			switch e.kind {
 			case 'v':
 				res.tokens = append(res.tokens, fmt.Sprintf("v:%d:%d:%s", e.dts, e.pts, Hx(e.payload)))
+				if k.inband {
+					learnParamSet(vm, e.payload)
+				}
 				vp.Packetize(&codec.Frame{MediaType: codec.MediaTypeVideo, Dts: e.dts, Pts: e.pts, Payload: e.payload})
 				capture()
 			case 'a':
@@ -366,6 +375,24 @@ func runImpl(k *hcase, in string) (res result) {
 	return
 }
 
+// learnParamSet: what rtp's h264Depacketizer does with an in-band SPS / PPS while the stream's
+// metadata (shared with the TS packetizer) has none
+func learnParamSet(vm *codec.VideoMeta, nal []byte) {
+	if len(nal) == 0 {
+		return
+	}
+	switch nal[0] & 0x1f {
+	case 7:
+		if len(vm.Sps) == 0 {
+			vm.Sps = nal
+		}
+	case 8:
+		if len(vm.Pps) == 0 {
+			vm.Pps = nal
+		}
+	}
+}
+
 // ---------- generators ----------
 
 func nsOfTicks(t int64) int64 {
@@ -407,6 +434,8 @@ func genCase(c *Ctx) *hcase {
 	k.pps = sanitizeNal(append([]byte{0x68}, c.Rng.Bytes(1+c.Rng.Intn(4))...))
 	if c.Rng.Chance(5) {
 		k.sps = nil
+	} else {
+		k.inband = c.Rng.Chance(25)
 	}
 	ch := 1 + c.Rng.Intn(2)
 	k.ascraw = aac.Encode2BytesASC(2, byte(rateIdx[k.rate]), byte(ch))
@@ -467,6 +496,7 @@ func genCase(c *Ctx) *hcase {
 	vt, at := int64(0), int64(c.Rng.Intn(2000))
 	vi := int64(0)
 	jitter := c.Rng.Chance(40)
+	sentPS := false
 	for vt < total || (hasAudio && at < total) {
 		if !hasAudio || (vt <= at && vt < total) {
 			if vt >= total {
@@ -492,7 +522,8 @@ func genCase(c *Ctx) *hcase {
 			if bframes && typ == 5 {
 				pts = dts + frameDur // with reordering every frame, key frames included, is presented later than decoded
 			}
-			if typ == 5 && c.Rng.Chance(20) {
+			if typ == 5 && (c.Rng.Chance(20) || (k.inband && !sentPS)) {
+				sentPS = true
 				// parameter sets travel as frames of their own in front of the IDR
 				k.evs = append(k.evs, event{kind: 'v', dts: nsOfTicks(dts), pts: nsOfTicks(pts), payload: k.spsOr()})
 				k.evs = append(k.evs, event{kind: 'v', dts: nsOfTicks(dts), pts: nsOfTicks(pts), payload: k.pps})
@@ -765,6 +796,9 @@ func run(c *Ctx) {
 		m := KV(outs[i])
 		c.Eval(in, r.segsDone >= 3)
 		c.Count("shape:" + k.tag)
+		if k.inband {
+			c.Count("parameter-sets-in-band-only")
+		}
 		if k.disk {
 			c.Count("storage:disk")
 		} else {
